@@ -490,17 +490,21 @@ register("C05", {
             "x every task step of the target, deadline cancellation at the instant of every "
             "network operation, and every fault kind x every network operation index; each "
             "variant is its own execution, all are non-trivial; distinct = distinct event-log "
-            "digest",
+            "digest; executors asyncio, trio, threads; seams L1 and L2 (real AnyIOBackend, "
+            "TrioBackend, SyncBackend); an extra 'evictor' base in which the target's arrival "
+            "evicts 2-3 expired connections; after every variant a reuse probe (one more "
+            "request to every origin the scenario used must be served) and a capacity probe",
     "assumptions": ["fault positions are enumerated completely per base; bases are sampled",
-                    "behavioural probe (fresh requests to fresh origins) is the arbiter of "
-                    "capacity"],
+                    "behavioural probes (one more request to the used origins, fresh requests to "
+                    "fresh origins) are the arbiters of usability and capacity"],
 }, FAMS05)
 
 register("C06", {
     "level": "fault_enumeration",
     "rule": "same sweep as C05 (every cancel point and every fault index on seeded bases of "
-            "all connection types); oracle = socket ledger: no orphan stream at quiescence, "
-            "no stream open after the pool is closed",
+            "all connection types, three executors, seams L1 and L2, plus the evictor base); "
+            "oracle = socket ledger: no orphan stream at quiescence, no stream open after the "
+            "pool is closed",
     "assumptions": ["a stream is owned if it is reachable from pool.connections",
                     "the simulated backend closes the socket when a TLS upgrade fails with an "
                     "Exception, and not when it is cancelled, as the real backends do"],
